@@ -1,0 +1,5 @@
+//go:build !verif
+
+package funcGen
+
+func verifLetBind(string, int, int) {}
